@@ -344,6 +344,47 @@ theorem safe_after_paused_tick (cfg : Cfg) (hc : Repaired cfg) (outs : List Int)
     exact both.2.tags hst hp
   · rename_i hst; exact absurd hs hst
 
+/-! ## The exemption, read strictly
+
+The theorems above exempt an output during a pause when a user-sourced command *wrote* it during that pause
+(`touchedRun`). The property says "unless the user explicitly commands that output *during the pause*":
+`touched` lists the outputs for which a user request was *accepted* while paused. With that reading the
+statement is `C08_full`; it is false of the code (`C08_counterexample`: a user command started before the
+Pause keeps running — user-sourced commands are not inhibited by Pause — and holds its output at an unsafe
+value for the whole pause). `C08_partial` = what is proved: the lenient exemption. Recorded as a finding. -/
+
+def WriteOkStrict (safes : List (Option Int)) (w : WriteRec) : Prop :=
+  (w.active = false → SafeVals safes w.vals []) ∧
+  (w.active = true → w.paused = true → SafeVals safes w.vals w.touched)
+
+/-- **Full statement (strict exemption).** -/
+def C08_full (cfg : Cfg) : Prop :=
+  ∀ (outs : List Int) (ops : List OpO), QuietFrom cfg (initO cfg outs) ops →
+    ∀ w ∈ (runO cfg (initO cfg outs) ops).base.core.writes, WriteOkStrict cfg.safes w
+
+/-- **What is proved** (all repairs in): every write is acceptable with the lenient exemption. -/
+theorem C08_partial (cfg : Cfg) (hc : Repaired cfg) (outs : List Int) (ops : List OpO)
+    (hq : QuietFrom cfg (initO cfg outs) ops) :
+    ∀ w ∈ (runO cfg (initO cfg outs) ops).base.core.writes, WriteOk cfg.safes w :=
+  writes_safe cfg hc outs ops hq
+
+/-- user command `L0` (writes 70 to output 0 for three ticks) requested during the run, then Pause -/
+def beforePause : List OpO :=
+  [.user .start, .tick { adv := 8, inc := 8 }, .tick { adv := 8, inc := 8 }, .userU 1 70 3,
+   .tick { adv := 8, inc := 8 }, .user .pause, .tick { adv := 8, inc := 8 }, .tick { adv := 8, inc := 8 },
+   .tick { adv := 8, inc := 8 }]
+
+/-- **Counterexample.** Even with every repair in, the pause writes 70 (safe value 0) to output 0 although no
+    user request was accepted during the pause; the value stays after the command has completed. -/
+theorem C08_counterexample : ¬ C08_full (repaired10 OPM.C06.safes3) := by
+  intro h
+  have hq : QuietFrom (repaired10 OPM.C06.safes3) (initO (repaired10 OPM.C06.safes3) [5, 7, 9]) beforePause := by
+    simp [QuietFrom, beforePause, OpO.okAt, TickInO.okAt]
+  have hw := h [5, 7, 9] beforePause hq ⟨true, true, [70, 1, 9], [], [0]⟩ (by decide +kernel)
+  have := hw.2 rfl rfl 0 70 0 (by decide) (by decide)
+  revert this
+  decide
+
 /-! ## The code as it is: witnesses; non-vacuity -/
 
 open OPM.C06 (safes3)
